@@ -76,14 +76,15 @@ void all(int part, int nparts) {
             break;
           }
       }
-      // all other construction paths must store the same direction, bit for bit
+      // every other construction path must satisfy the same oracle and store the same direction up to rounding (2 ulp of 1
+      // per component; the statement does not ask the paths to be bit-identical)
       auto same = [&](const char* path, const Direction<T>& o) {
         T c[3];
         vf::comps(o, c);
         vf::stat("path_comparisons");
         c10::check_direction<T>(path, c, s, 3);
         for (int i = 0; i < 3; i++)
-          if (!vf::same_bits(c[i], d[i])) {
+          if (std::fabs((double)(c[i] - d[i])) > 2 * (double)std::numeric_limits<T>::epsilon()) {
             vf::viol(std::string("direction|path-disagrees|") + path + "|" + vf::TName<T>::value,
                      "{\"input\":[" + vf::jstr(vf::hex(s[0])) + "," + vf::jstr(vf::hex(s[1])) + "," + vf::jstr(vf::hex(s[2])) + "]}");
             break;
@@ -174,7 +175,7 @@ void all(int part, int nparts) {
         vf::comps(o, c);
         vf::stat("path_comparisons");
         c10::check_direction<T>(path, c, s, 2);
-        if (!vf::same_bits(c[0], d[0]) || !vf::same_bits(c[1], d[1]))
+        if (std::fabs((double)(c[0] - d[0])) > 2 * (double)std::numeric_limits<T>::epsilon() || std::fabs((double)(c[1] - d[1])) > 2 * (double)std::numeric_limits<T>::epsilon())
           vf::viol(std::string("direction|path-disagrees|") + path + "|" + vf::TName<T>::value, "{\"input\":[" + vf::jstr(vf::hex(s[0])) + "," + vf::jstr(vf::hex(s[1])) + "]}");
       };
       same("PlanarDirection(array)", PlanarDirection<T>(std::array<T, 2>{s[0], s[1]}));
